@@ -99,6 +99,10 @@ def expr(node, opts=None):
         return {'e': 'exists', 'neg': False, 'q': query(node.args[0], opts)}
     if k == 'NotExists':
         return {'e': 'exists', 'neg': True, 'q': query(node.args[0], opts)}
+    if k == 'TypeCast':
+        if str(node.type_name).lower() not in ('int', 'integer', 'bigint'):
+            raise Unsupported('cast to ' + str(node.type_name))
+        return {'e': 'cast', 'a': expr(node.arg, opts)}
     if k == 'Parameter':
         raise Unsupported('bare parameter')
     raise Unsupported('expression ' + k)
